@@ -22,6 +22,54 @@ pub struct Case {
   /// a registry and an entry module importing from it (extra root)
   #[serde(default)]
   pub jsr: Option<crate::props::c07::JsrPart>,
+  /// adds two more roots: the first imports k files as text assets, the
+  /// second imports the same files as code while those asset loads are still
+  /// outstanding (so the code loads wait and are issued together later); every
+  /// file imports one missing module, whose referrer is the first visitor
+  #[serde(default)]
+  pub deferred_fan: Option<u8>,
+}
+
+fn with_fan(b: &BuildCase, k: u8) -> BuildCase {
+  use crate::world::{Entry, Item, Lang};
+  let mut b = b.clone();
+  let files: Vec<String> = (0..k).map(|i| format!("file:///fan/t{i}.ts")).collect();
+  b.world.entries.insert(
+    "file:///fan/a.ts".into(),
+    Entry::Src {
+      lang: Lang::Ts,
+      items: files
+        .iter()
+        .map(|f| Item::Import { spec: f.clone(), attr: Some("text".into()), types: None })
+        .collect(),
+      headers: vec![],
+    },
+  );
+  b.world.entries.insert(
+    "file:///fan/b.ts".into(),
+    Entry::Src {
+      lang: Lang::Ts,
+      items: files
+        .iter()
+        .map(|f| Item::Import { spec: f.clone(), attr: None, types: None })
+        .collect(),
+      headers: vec![],
+    },
+  );
+  for f in &files {
+    b.world.entries.insert(
+      f.clone(),
+      Entry::Src {
+        lang: Lang::Ts,
+        items: vec![Item::Import { spec: "file:///fan/missing.ts".into(), attr: None, types: None }],
+        headers: vec![],
+      },
+    );
+  }
+  b.roots.push("file:///fan/a.ts".into());
+  b.roots.push("file:///fan/b.ts".into());
+  b.opts.unstable_text = true;
+  b
 }
 
 fn params(tier: Tier) -> GenParams {
@@ -48,12 +96,14 @@ pub fn spec() -> PropSpec<Case> {
         ),
         2..=4u8,
         proptest::option::weighted(0.55, crate::props::c07::jsr_part_strategy()),
+        proptest::option::weighted(0.12, 2..=6u8),
       )
-        .prop_map(|(build, schedules, reruns, jsr)| Case {
+        .prop_map(|(build, schedules, reruns, jsr, deferred_fan)| Case {
           build,
           schedules,
           reruns,
           jsr,
+          deferred_fan,
         })
         .boxed()
     },
@@ -206,7 +256,15 @@ pub fn diff_observed(a: &Observed, b: &Observed) -> Option<(String, String)> {
 
 pub fn check(case: &Case, _tier: Tier) -> Outcome {
   let mut o = Outcome::default();
-  let b = &case.build;
+  let fanned;
+  let b = match case.deferred_fan {
+    Some(k) => {
+      fanned = with_fan(&case.build, k);
+      o.label("deferred-code-loads-behind-asset-loads");
+      &fanned
+    }
+    None => &case.build,
+  };
   let jsr = case.jsr.as_ref();
   let (base, _) = run_with(b, jsr, None).expect("ungated");
   let mut contested = 0;
@@ -309,7 +367,7 @@ pub fn extra(tier: Tier, seed: u64) -> ExtraReport {
       let (obs, options) = match run_exact(&b, &sched) {
         Ok(x) => x,
         Err(_) => {
-          let case = Case { build: b.clone(), schedules: vec![], reruns: 0, jsr: None };
+          let case = Case { build: b.clone(), schedules: vec![], reruns: 0, jsr: None, deferred_fan: None };
           if sigs.insert("deadlock".to_string()) {
             rep.violations.push((
               Violation { sig: "C04/build-does-not-finish-under-schedule".into(), msg: format!("exact picks {prefix:?}") },
@@ -335,6 +393,7 @@ pub fn extra(tier: Tier, seed: u64) -> ExtraReport {
           schedules: vec![Schedule { choices, tail: 0 }],
           reruns: 0,
           jsr: None,
+          deferred_fan: None,
         };
         if sigs.insert(sig.clone()) {
           rep.violations.push((
@@ -373,7 +432,7 @@ pub fn extra(tier: Tier, seed: u64) -> ExtraReport {
       unfinished += 1;
     }
     if any_contested {
-      let case = Case { build: b.clone(), schedules: vec![], reruns: 0, jsr: None };
+      let case = Case { build: b.clone(), schedules: vec![], reruns: 0, jsr: None, deferred_fan: None };
       let j = serde_json::to_value(&case).unwrap();
       rep.nontrivial_hashes.push(crate::runner::hash_json(&j));
       if rep.samples.is_empty() {
